@@ -7,20 +7,20 @@ namespace Theo
 
 /-- every stored word lies in `[0, 2^31-1]`, at every point of every history -/
 theorem C20_values_in_range (p : Program) (h : ConstOK p.code) (vm : VM) (hr : Reach p vm) :
-    ∀ w ∈ vm.data, InRange w := by
-  sorry
+    ∀ w ∈ vm.data, InRange w :=
+  reach_range h vm hr
 
 /-- subtraction truncates at zero -/
-theorem C20_sub_truncates (v c : Int) (h : v + c < 0) : addClamp v c = 0 := by
-  sorry
+theorem C20_sub_truncates (v c : Int) (h : v + c < 0) : addClamp v c = 0 :=
+  addClamp_neg v c h
 
 /-- an addition whose mathematical result exceeds the word range yields a defined value -/
-theorem C20_add_saturates (v c : Int) (h : INT_MAX < v + c) : addClamp v c = INT_MAX := by
-  sorry
+theorem C20_add_saturates (v c : Int) (h : INT_MAX < v + c) : addClamp v c = INT_MAX :=
+  addClamp_sat v c h
 
 /-- inside the range the addition is exact -/
-theorem C20_add_exact (v c : Int) (h0 : 0 ≤ v + c) (h1 : v + c ≤ INT_MAX) : addClamp v c = v + c := by
-  sorry
+theorem C20_add_exact (v c : Int) (h0 : 0 ≤ v + c) (h1 : v + c ≤ INT_MAX) : addClamp v c = v + c :=
+  addClamp_exact v c h0 h1
 
 example : addClamp 2147483646 5 = INT_MAX ∧ addClamp 3 (-5) = 0 ∧ addClamp 3 4 = 7 := by decide
 
